@@ -191,11 +191,12 @@ func GoEnd() {
 // them writes, and at least one of the two accesses is made without any mutex held. (Accesses made before the first
 // goroutine is spawned - initialisation - are ignored; a goroutine that has ended hands its maps over.)
 
+// mapRec: what one goroutine has done to one map so far, by kind of access
+// (index: 0 read under a mutex, 1 read without, 2 write under a mutex, 3 write without).
 type mapRec struct {
-	g        *ginfo
-	wrote    bool
-	unlocked bool
-	site     string
+	g    *ginfo
+	seen [4]bool
+	site [4]string
 }
 
 var (
@@ -219,32 +220,42 @@ func MapAccess(m interface{}, name string, write bool, site string) {
 	mu.Lock()
 	defer mu.Unlock()
 	var mine *mapRec
+	kind := 0
+	if !locked {
+		kind |= 1
+	}
+	if write {
+		kind |= 2
+	}
+	how := [4]string{"reads it under a mutex", "reads it without a mutex", "writes it under a mutex", "writes it without a mutex"}
 	for _, r := range mapAccs[p] {
 		if r.g == g {
 			mine = r
 			continue
 		}
-		if r.g.dead {
+		if r.g.dead || mapRaceOf[name] {
 			continue
 		}
-		if (write || r.wrote) && (!locked || r.unlocked) && !mapRaceOf[name] {
-			mapRaceOf[name] = true
-			how := map[bool]string{true: "writes", false: "reads"}
-			mapRaces = append(mapRaces, fmt.Sprintf("%s: %s %s at %s (mutex held: %v) while %s, still running, %s it at %s (without mutex: %v)",
-				name, g.name, how[write], site, locked, r.g.name, how[r.wrote], r.site, r.unlocked))
+		// two accesses conflict when at least one writes and not both are under a mutex
+		for k := 0; k < 4; k++ {
+			if !r.seen[k] {
+				continue
+			}
+			otherWrite, otherLocked := k&2 != 0, k&1 == 0
+			if (write || otherWrite) && !(locked && otherLocked) {
+				mapRaceOf[name] = true
+				mapRaces = append(mapRaces, fmt.Sprintf("%s: %s %s at %s while %s, still running, %s at %s",
+					name, g.name, how[kind], site, r.g.name, how[k], r.site[k]))
+				break
+			}
 		}
 	}
 	if mine == nil {
 		mine = &mapRec{g: g}
 		mapAccs[p] = append(mapAccs[p], mine)
 	}
-	if write {
-		mine.wrote = true
-	}
-	if !locked {
-		mine.unlocked = true
-	}
-	mine.site = site
+	mine.seen[kind] = true
+	mine.site[kind] = site
 }
 
 // GoPanic is called from the recover() wrapper the instrumenter puts around
